@@ -378,15 +378,36 @@ def r5b_work_list(report, repo):
   src = dotted(loops[0].iter) if loops else None
   defs = lib.resolve_local(f, src) if src and src != par else []
   ok = False
-  for d in defs:
-    if isinstance(d, ast.IfExp) and isinstance(d.test, ast.Compare) and \
-        dotted(d.test.left) == par and isinstance(
-            d.test.comparators[0], ast.Constant) and \
-        d.test.comparators[0].value is None:
-      given, other = (d.body, d.orelse) if isinstance(
-          d.test.ops[0], ast.IsNot) else (d.orelse, d.body)
+
+  def none_test(t):
+    """(param is tested against None, True if the T branch means 'given')"""
+    if isinstance(t, ast.Compare) and len(t.ops) == 1 and dotted(
+        t.left) == par and isinstance(t.comparators[0], ast.Constant) and \
+        t.comparators[0].value is None and isinstance(
+            t.ops[0], (ast.Is, ast.IsNot)):
+      return isinstance(t.ops[0], ast.IsNot)
+    return None
+  if len(defs) == 1:
+    d = defs[0]
+    if isinstance(d, ast.IfExp) and none_test(d.test) is not None:
+      given, other = (d.body, d.orelse) if none_test(d.test) else (d.orelse,
+                                                                   d.body)
       ok = dotted(given) == par and dotted(other) == 'self._plug_types'
-  report.check(ok and len(defs) == 1, rule, f.qualname, 'explicit-empty-list',
+  elif len(defs) == 2:
+    # statement form: `if plug_types is not None: x = plug_types else: x = ...`
+    g = lib.cfg(f)
+    ok = True
+    for n in g.nodes:
+      if n.kind == 'stmt' and isinstance(n.ast, ast.Assign) and any(
+          core.is_name(t, src) for t in n.ast.targets):
+        want_given = dotted(n.ast.value) == par
+        if not want_given and dotted(n.ast.value) != 'self._plug_types':
+          ok = False
+        ok = ok and g.dominated_by_edge(
+            n, lambda s_, l, d_, _w=want_given: s_.kind == 'test' and
+            none_test(s_.ast) is not None and
+            (l == 'T') == (none_test(s_.ast) == _w))
+  report.check(ok, rule, f.qualname, 'explicit-empty-list',
                f.node,
                'the plugs to construct are `plug_types` whenever it is given '
                '(also when empty), else the test\'s plug types',
@@ -405,20 +426,28 @@ def r6_injection(report, repo):
   cs = core.calls_in(f.node, attr='provide_plugs')
   report.expect_instances(rule, len(cs), 1, 'provide_plugs calls')
   a = cs[0].args[0] if cs[0].args else None
-  ok = isinstance(a, (ast.GeneratorExp, ast.ListComp)) and isinstance(
+  pv = dotted(a.generators[0].target) if isinstance(
+      a, (ast.GeneratorExp, ast.ListComp)) else None
+  ok = pv is not None and isinstance(
       a.elt, ast.Tuple) and [dotted(x) for x in a.elt.elts] == [
-          'plug.name', 'plug.cls'] and dotted(a.generators[0].iter) == \
+          pv + '.name', pv + '.cls'] and dotted(a.generators[0].iter) == \
       'self.plugs'
   report.check(ok, rule, f.qualname, 'pairs', cs[0],
                'provide_plugs((plug.name, plug.cls) for plug in self.plugs ...)')
   if ok:
     ifs = a.generators[0].ifs
-    report.check(len(ifs) <= 1 and all(dotted(i) == 'plug.update_kwargs'
+    report.check(len(ifs) <= 1 and all(dotted(i) == pv + '.update_kwargs'
                                        for i in ifs), rule, f.qualname,
                  'update_kwargs', cs[0], 'only update_kwargs filters injection')
   st = core.enclosing_stmt(cs[0])
-  report.check(isinstance(st, ast.Expr) and call_name(st.value) ==
-               'kwargs.update', rule, f.qualname, 'kwargs', st,
+  # the dict the phase function is finally called with (**<name>)
+  kwn = {dotted(k.value) for c in core.calls_in(f.node) for k in c.keywords
+         if k.arg is None and (dotted(c.func) == 'self.func' or any(
+             dotted(x) == 'self.func' for x in c.args))}
+  report.check(isinstance(st, ast.Expr) and isinstance(st.value, ast.Call) and
+               last_attr(st.value) == 'update' and
+               dotted(st.value.func.value) in kwn, rule, f.qualname, 'kwargs',
+               st,
                'provided plugs are merged into the phase kwargs')
   p = repo.func(PL, 'PlugManager.provide_plugs')
   rets = [n for n in walk_no_nested(p.node) if isinstance(n, ast.Return)]
